@@ -226,6 +226,7 @@ class Engine:
         if v.kind == 'int': return v.term != 0
         if v.kind == 'none': return z3.BoolVal(False)
         if v.kind.startswith('list[') or v.kind.startswith('dict['): return p.heap.llen(v.term) != 0
+        if v.kind.startswith('set['): raise Unsupported('truthiness of a set (emptiness is not tracked)')
         if v.kind == 'str': return slen(v.term) != 0
         if v.kind == 'ref': return v.term != NULL
         if v.kind == 'pyconst': return z3.BoolVal(bool(v.kw['value']))
@@ -255,6 +256,8 @@ class Engine:
         if isinstance(e, ast.Compare):
             if len(e.ops) != 1: raise Unsupported('chained comparison')
             op = type(e.ops[0]); a = self.ev(e.left, p); b = self.ev(e.comparators[0], p)
+            if op in (ast.In, ast.NotIn) and b.kind.startswith('set['):
+                t = p.heap.load(b.term, dhas_field(b.kind[4:-1]))[a.term]; return vbool(t if op is ast.In else Not(t))
             if op in (ast.In, ast.NotIn) and b.kind.startswith('dict['):
                 K, Vk, keys, has, mp, n = self.dparts(b, p); t = has[a.term]; return vbool(t if op is ast.In else Not(t))
             if op in (ast.In, ast.NotIn):
@@ -354,6 +357,8 @@ class Engine:
             if len(args) == 1: return V('range', None, lo=z3.IntVal(0), hi=self.ev(args[0], p).term)
             if len(args) == 2: return V('range', None, lo=self.ev(args[0], p).term, hi=self.ev(args[1], p).term)
             raise Unsupported('range step')
+        if d == 'set' and not args:
+            K = self.spec.empty_set_kind(line); r = p.heap.new(p, 'set'); p.heap.store(r, dhas_field(K), z3.K(sort_of(K), z3.BoolVal(False))); return V(f'set[{K}]', r)
         if d == 'enumerate': return V('enumerate', None, lst=self.ev(args[0], p))
         if isinstance(f, ast.Attribute) and f.attr in ('items', 'values', 'keys') and not args:
             recv0 = self.ev(f.value, p)
@@ -406,6 +411,16 @@ class Engine:
             recv_d = self.dotted(f.value)
             if recv_d == 'logging': return NONE                                    # logging.* dropped
             recv = self.ev(f.value, p)
+            if recv.kind.startswith('set['):
+                K = recv.kind[4:-1]; fld = dhas_field(K); has = p.heap.load(recv.term, fld)
+                if f.attr == 'add':
+                    self.frame(p, recv.term, fld, line); p.heap.store(recv.term, fld, z3.Store(has, self.ev(args[0], p).term, True)); return NONE
+                if f.attr == 'update':
+                    other = self.ev(args[0], p)
+                    if other.kind != recv.kind: raise Unsupported('set.update with ' + other.kind)
+                    o = p.heap.load(other.term, fld); a_, b_ = z3.Bools('a b'); union = z3.Map(z3.Or(a_, b_).decl(), has, o)
+                    self.frame(p, recv.term, fld, line); p.heap.store(recv.term, fld, union); return NONE
+                raise Unsupported(f'set method {f.attr}')
             if recv.kind.startswith('list['):
                 if f.attr == 'append': self.lappend(recv, self.ev(args[0], p), p, line); return NONE
                 if f.attr == 'insert': self.linsert(recv, self.ev(args[0], p).term, self.ev(args[1], p), p, line); return NONE
@@ -705,6 +720,7 @@ class Spec:
     def raises(self, E, ctx, p, exc): return [(f'no-{exc}', z3.BoolVal(False))]
     def may_write(self, E, p, ref, field): return z3.BoolVal(False)
     def empty_list_kind(self, line): return 'int'
+    def empty_set_kind(self, line): return 'str'
     def bounds(self, E): return []            # list-length terms to bound in the refutation stage
     def exclusions(self, E, names): return []  # extra schematic hypotheses excluding known-finding classes
 
